@@ -358,9 +358,51 @@ def r6_antiparallel_branch(chk):
             chk.fail("C11.R6", key, f.where(r), f"the branch returns `{short(e, 60)}` = I - 2 n n^T: a reflection, not a rotation (determinant -1) - the moved fragment is mirrored")
         elif comp:
             chk.ok("C11.R6", key, f.where(r), f"composed of two rotations: {short(e, 70)}")
+            _intermediate_direction(chk, f, r, e)
         else:
             chk.note(f"C11.R6: antiparallel branch returns `{short(e, 70)}` - neither the two-rotation composition nor a recognised reflection; not decided (numerical)")
             chk.ok("C11.R6", key, f.where(r), "shape not classified (numerical clause, section 6)", trivial=True)
+
+
+def _intermediate_direction(chk, f, ret, comp):
+    """the direction the half turn goes through is a coordinate axis made orthogonal to the target vector w; the axis must be the
+    one LEAST aligned with w in absolute value - any other choice is parallel to w for some w = +-e_k, the orthogonalised vector
+    is then zero and both quarter turns are NaN."""
+    key = f"{f.key}:antiparallel-branch:intermediate-direction-never-degenerate"
+    # the seed: `seed[IDX] = 1.0` on the way to the return
+    blk = None
+    for parent in ast.walk(f.node):
+        for fld in ("body", "orelse"):
+            b = getattr(parent, fld, None)
+            if isinstance(b, list) and any(x is ret for x in b):
+                blk = b
+    seeds = [s for s in (blk or []) if isinstance(s, ast.Assign) and isinstance(s.targets[0], ast.Subscript) and isinstance(s.value, ast.Constant) and s.value.value in (1, 1.0)]
+    if len(seeds) != 1:
+        chk.note("C11.R6: the seed axis of the intermediate direction was not found; its choice is not decided")
+        return
+    idx = seeds[0].targets[0].slice
+    txt = norm(idx)
+    arg = None
+    pick = None
+    if isinstance(idx, ast.Call):
+        cn = call_name(idx) or ""
+        if cn.split(".")[-1] in ("argmin", "argmax"):
+            pick = cn.split(".")[-1]
+            arg = idx.args[0] if (cn.startswith("np.") or cn.startswith("numpy.") or cn in ("argmin", "argmax")) and idx.args else (idx.func.value if isinstance(idx.func, ast.Attribute) else None)
+    if pick is None or arg is None:
+        if isinstance(idx, ast.Constant):
+            chk.fail("C11.R6", key, f.where(seeds[0]), f"the seed axis is always e_{idx.value}: for a target along +-e_{idx.value} the orthogonalised direction is the zero vector and the result is NaN")
+        else:
+            chk.note(f"C11.R6: seed axis index `{txt}` not classified; not decided")
+        return
+    a = norm(arg)
+    absolute = any(isinstance(c, ast.Call) and (call_name(c) or "").split(".")[-1] in ("abs", "fabs", "absolute", "square") for c in ast.walk(arg)) or \
+        (isinstance(arg, ast.BinOp) and (isinstance(arg.op, ast.Pow) or (isinstance(arg.op, ast.Mult) and norm(arg.left) == norm(arg.right))))
+    ok = pick == "argmin" and absolute
+    chk.decide(ok, "C11.R6", key, f.where(seeds[0]), f"seed axis = argmin |components| (`{txt}`)",
+               f"the seed axis is chosen by `{txt}`" + (": the smallest SIGNED component - for a target along -e_k that is the axis the target lies on" if pick == "argmin" else
+                                                       ": the most aligned axis") +
+               ", the orthogonalised direction is the zero vector and the returned matrix is all NaN (a join / alignment along exactly opposite axis directions destroys the coordinates)")
 
 
 def r3_alignment(chk):
@@ -423,7 +465,7 @@ def r4_views(chk):
     ens = chk.prog.cls(f"{ENS}:ConformerEnsemble")
     c14.r3_view(sub, conf, ens)
     for o in sub.obligations:
-        if "coords" in o["construct"]:
+        if "coords" in o["construct"] or "memoised" in o["construct"]:
             o = dict(o)
             o["rule"] = "C11.R4"
             chk.obligations.append(o)
